@@ -237,7 +237,10 @@ void run_extract(vf::Ctx &c) {
   const auto &seeds = tp_seeds();
   int si = c.pick("seed", (int)seeds.size());
   std::string in = seeds[si], desc = vf::sfmt("seed%d", si);
-  int maxm = c.thorough() ? 2 : 1;
+  // two mutations (thorough): on the core seeds only (version 00 exact, one-non-zero-digit ids, higher version with a
+  // tail, forbidden version ff, whitespace-padded), second mutation over the reduced alphabet
+  bool core = si == 0 || si == 1 || si == 3 || si == 6 || si == 10;
+  int maxm = c.thorough() && core ? 2 : 1;
   int nm = c.pick("mutations", maxm + 1);
   size_t minpos = 0;
   bool vacuous = false;
